@@ -295,6 +295,8 @@ thread_local! {
 pub fn lz_proj(c: &mut CompressorOxide, input: &[u8], taken: usize, flush: &str, quiet: bool) -> Value {
     // high-water mark of look-ahead + history inside the match finders during the call just made
     let fillmax = c.verif_lz_fill_max();
+    // largest LZ code buffer position any tokenising step of that call started from
+    let codepos_max = c.verif_lz_code_pos_max();
     const DICT: usize = 32768;
     const MAXM: usize = 258;
     let (lapos, lasize, dsize, saved_len, d) = c.verif_lz_state();
@@ -323,7 +325,7 @@ pub fn lz_proj(c: &mut CompressorOxide, input: &[u8], taken: usize, flush: &str,
     let fast = f & 0xFFF == 1 && f & 0x4000 != 0 && f & (0x20000 | 0x80000 | 0x10000) == 0;
     json!({"lapos": lapos, "lasize": lasize, "dsize": dsize, "taken": taken, "hist_bad": hist_bad,
            "look_bad": look_bad, "mirror_bad": mirror_bad, "saved_len": saved_len,
-           "idle": quiet, "flush": flush, "lamax": if fast { 4096 } else { MAXM }, "fillmax": fillmax})
+           "idle": quiet, "flush": flush, "lamax": if fast { 4096 } else { MAXM }, "fillmax": fillmax, "codepos_max": codepos_max})
 }
 
 /// Drive the low-level compressor along a schedule; log every call; then log the whole
